@@ -68,6 +68,7 @@ func (e *Env) resolveAnchors(body *ast.BlockStmt) {
 	}
 	texts := map[string]int{}
 	shapes := map[string][]string{}
+	heads := map[string][]string{}
 	ast.Inspect(body, func(n ast.Node) bool {
 		st, ok := n.(ast.Stmt)
 		if !ok {
@@ -85,6 +86,9 @@ func (e *Env) resolveAnchors(body *ast.BlockStmt) {
 		}
 		if sh := stmtShape(st); sh != "" {
 			shapes[sh] = append(shapes[sh], t)
+		}
+		if h := headCall(st); h != "" {
+			heads[h] = append(heads[h], t)
 		}
 		return true
 	})
@@ -122,8 +126,43 @@ func (e *Env) resolveAnchors(body *ast.BlockStmt) {
 		if len(cands) == 1 {
 			cl.Resolved = cands[0]
 			e.w.trustedNote(fmt.Sprintf("anchor drift in %s: the clause anchored at %q was attached to %q (same statement shape, unique)", e.short, cl.Anchor, cands[0]))
+			continue
+		}
+		// second tier, for a call statement: the only call statement of the function with the same outermost
+		// callee (an argument that used to be computed in place is now computed by an earlier statement)
+		if h := headCall(fd.Body.List[0]); h != "" && len(cands) == 0 {
+			seen = map[string]bool{}
+			for _, t := range heads[h] {
+				if !seen[t] && !anchorTexts[t] && texts[t] == 1 {
+					seen[t] = true
+					cands = append(cands, t)
+				}
+			}
+			if len(cands) == 1 {
+				cl.Resolved = cands[0]
+				e.w.trustedNote(fmt.Sprintf("anchor drift in %s: the clause anchored at %q was attached to %q (the only call statement with the same callee)", e.short, cl.Anchor, cands[0]))
+			}
 		}
 	}
+}
+
+// headCall names the callee of a statement that consists of one call ("" otherwise).
+func headCall(s ast.Node) string {
+	es, ok := s.(*ast.ExprStmt)
+	if !ok {
+		return ""
+	}
+	c, ok := ast.Unparen(es.X).(*ast.CallExpr)
+	if !ok {
+		return ""
+	}
+	switch f := ast.Unparen(c.Fun).(type) {
+	case *ast.SelectorExpr:
+		return exprString(f)
+	case *ast.Ident:
+		return f.Name
+	}
+	return ""
 }
 
 // anchored runs the ghost clauses anchored before/after statement s.
